@@ -19,6 +19,7 @@ import (
 	"strings"
 
 	"github.com/tdewolff/minify/v2"
+	mcss "github.com/tdewolff/minify/v2/css"
 	mhtml "github.com/tdewolff/minify/v2/html"
 	mjs "github.com/tdewolff/minify/v2/js"
 	"github.com/tdewolff/parse/v2"
@@ -1308,6 +1309,7 @@ func c03StageRawLex(c *Ctx) error {
 	if err != nil {
 		return err
 	}
+	nDiff := 0
 	for i, it := range items {
 		st.Count(it.name+" "+string(it.b), !it.acc)
 		got, ok, msg := h.DecodeReply(rep[i])
@@ -1316,6 +1318,9 @@ func c03StageRawLex(c *Ctx) error {
 			continue
 		}
 		if (got[0] == '1') != it.acc {
+			if nDiff++; nDiff > 8 { // keep room in the report for failing inputs found by the property oracles
+				continue
+			}
 			c.R.Add(h.Finding{Stage: st.Name, Kind: "diff", What: "model.c03.rawok", Input: it.name + " " + h.Q(it.b), Hex: h.Hex(it.b), Impl: fmt.Sprint(it.acc), Model: string(got[:1])})
 			continue
 		}
@@ -1327,6 +1332,296 @@ func c03StageRawLex(c *Ctx) error {
 			}
 		}
 	}
+	if nDiff > 0 {
+		c.R.Note("rawlex: %d model/implementation differences", nDiff)
+	}
+	st.End()
+	return nil
+}
+
+// ---------- domsub: the DOM oracle on documents whose script/style content goes through a sub-minifier ----------
+
+// c03DropStub: a sub-minifier that removes /* */ comments (not /*! */), // comments and backslashes
+func c03DropStub(_ *minify.M, w io.Writer, r io.Reader, _ map[string]string) error {
+	b, err := io.ReadAll(r)
+	if err != nil {
+		return err
+	}
+	var out []byte
+	for i := 0; i < len(b); {
+		switch {
+		case bytes.HasPrefix(b[i:], []byte("/*")) && !bytes.HasPrefix(b[i:], []byte("/*!")):
+			j := bytes.Index(b[i+2:], []byte("*/"))
+			if j < 0 {
+				i = len(b)
+			} else {
+				i += 2 + j + 2
+			}
+		case bytes.HasPrefix(b[i:], []byte("//")):
+			j := bytes.IndexByte(b[i:], '\n')
+			if j < 0 {
+				i = len(b)
+			} else {
+				i += j
+			}
+		case b[i] == '\\':
+			i++
+		default:
+			out = append(out, b[i])
+			i++
+		}
+	}
+	_, err = w.Write(out)
+	return err
+}
+
+var c03SubPieces = []string{
+	"var re=/<!--<script>/", "/* </script> */", "/*! <!--<script> */", "var s=\"</script>\"", "f()", "var t=`<!--<script>`",
+	"/* <!-- */", "var u='-->'", "// </script>\ng()", "var re2=/<!--<SCRIPT /", "/* </SCRIPT> */", "/*! </script > */", "var re3=/<!--<Script>x/i",
+	"var v='<\\/script>'", "/* --> */", "/*! --> */", "var w=\"<!--\"", "var re4=/<script>/", "h(a<b)", "var q=`</script>`", "/* <script> */",
+	"var re5=/<\\!--<script>/", "x=1",
+}
+
+var c03SubScripts = []string{
+	"var re=/<!--<script>/;/* </script> */ f()",
+	"var re=/<!--<SCRIPT>/;/* </SCRIPT> */ f()",
+	"var re=/<!--<script /;/* </script > */ f()",
+	"/*! <!--<script> */ f(); /* </script> */ g()",
+	"/*! <!--<Script> */ f(); // </script>\ng()",
+	"var t=`<!--<script>`;/* </script> */f()",
+	"var r=/<!--<script>/;var s=\"</script>\";alert(1)",
+	"var r=/<!--<script>/;var s='</SCRIPT>';alert(1)",
+	"var r=/<!--<script>/;var s=`</script>`;alert(1)",
+	"<!\\--<script>x()", "a()/* </script> */;b=/<!--<script>/", "/* </script> */<!\\--<script>", "x()", "if(a<b)c()", "var s=\"<\\/script>\"",
+	"/* <!--<script> */f()", "var re=/<!--<script>/;f()</script><script>g()", "", " ",
+}
+
+var c03SubStyles = []string{"a{b:c}", "a{b:\"<\\/style>\"}", "/* </style> */a{b:c}", "a{b:< \\/style >}", "a:before{content:\"<!--<script>\"}", ""}
+
+var c03SubContexts = []string{
+	"<p>a</p><script>%s</script><p>x</p>",
+	"<!doctype html><html><head><title>t</title><script>%s</script></head><body><p>x</p><script>y()</script><div>z</div></body></html>",
+	"<div><SCRIPT type=\"text/javascript\">%s</SCRIPT> <b>x</b> y</div>",
+	"<script type=module>%s</script><p>x",
+	"<ul><li>a<script>%s</script><li>b</ul><style>p{c:d}</style><p>x</p>",
+}
+
+// c03ScriptScan follows the standard's script data states (§13.2.5.4, .15-.31) over b, the bytes behind a script start
+// tag: end = offset of the `<` of the end tag that ends the element (len(b) if none).  oracleUnsafe: the scan went
+// through "script data escaped less-than sign state, anything else" (`<!`, `<\`, `<1` … in the escaped state), where
+// x/net/html continues in the script data state instead of the escaped state -- the DOM oracle cannot be used then.
+func c03ScriptScan(b []byte) (end int, oracleUnsafe bool) {
+	alpha := func(c byte) bool { return 'a' <= c && c <= 'z' || 'A' <= c && c <= 'Z' }
+	delim := func(c byte) bool { return c == ' ' || c == '\n' || c == '\t' || c == '\f' || c == '/' || c == '>' }
+	word := func(k int) (j int, isScript bool) { // letters from k; isScript: they spell script and a delimiter follows
+		j = k
+		for j < len(b) && alpha(b[j]) {
+			j++
+		}
+		return j, j < len(b) && delim(b[j]) && strings.EqualFold(string(b[k:j]), "script")
+	}
+	const (
+		data = iota
+		lt
+		escStart
+		escStartDash
+		esc
+		escDash
+		escDashDash
+		escLt
+		dbl
+		dblDash
+		dblDashDash
+		dblLt
+	)
+	st := data
+	for i := 0; i < len(b); {
+		c := b[i]
+		switch st {
+		case data:
+			if c == '<' {
+				st = lt
+			}
+			i++
+		case lt:
+			switch {
+			case c == '/':
+				if _, ok := word(i + 1); ok {
+					return i - 1, oracleUnsafe
+				}
+				st = data
+				i++
+			case c == '!':
+				st = escStart
+				i++
+			default:
+				st = data
+			}
+		case escStart:
+			if c == '-' {
+				st = escStartDash
+				i++
+			} else {
+				st = data
+			}
+		case escStartDash:
+			if c == '-' {
+				st = escDashDash
+				i++
+			} else {
+				st = data
+			}
+		case esc, escDash, escDashDash:
+			switch {
+			case c == '-' && st == esc:
+				st = escDash
+			case c == '-':
+				st = escDashDash
+			case c == '<':
+				st = escLt
+			case c == '>' && st == escDashDash:
+				st = data
+			default:
+				st = esc
+			}
+			i++
+		case escLt:
+			switch {
+			case c == '/':
+				if _, ok := word(i + 1); ok {
+					return i - 1, oracleUnsafe
+				}
+				st = esc
+				i++
+			case alpha(c):
+				j, ok := word(i)
+				if ok {
+					st = dbl
+					i = j + 1
+				} else {
+					st = esc
+					i = j
+				}
+			default:
+				oracleUnsafe = true
+				st = esc
+			}
+		case dbl, dblDash, dblDashDash:
+			switch {
+			case c == '-' && st == dbl:
+				st = dblDash
+			case c == '-':
+				st = dblDashDash
+			case c == '<':
+				st = dblLt
+			case c == '>' && st == dblDashDash:
+				st = data
+			default:
+				st = dbl
+			}
+			i++
+		case dblLt:
+			if c == '/' {
+				j, ok := word(i + 1)
+				if ok {
+					st = esc
+					i = j + 1
+				} else {
+					st = dbl
+					i = j
+				}
+			} else {
+				st = dbl
+			}
+		}
+	}
+	return len(b), oracleUnsafe
+}
+
+var c03ScriptStartRe = regexp.MustCompile(`(?i)<script[^>]*>`)
+
+// c03OracleUnsafe: some script element of doc takes the path on which x/net/html deviates from the standard
+func c03OracleUnsafe(doc []byte) bool {
+	for _, loc := range c03ScriptStartRe.FindAllIndex(doc, -1) {
+		if _, unsafe := c03ScriptScan(doc[loc[1]:]); unsafe {
+			return true
+		}
+	}
+	return false
+}
+
+func c03StageDomSub(c *Ctx) error {
+	st := c.R.StartStage("domsub", "documents with script (and style) elements whose source contains `<!--`, `<script` (regular expression literal, kept /*! */ comment, template literal; upper/lower case) and a balancing `</script` only in a comment or string, over several contexts; html.Minify with (a) a sub-minifier that drops comments and backslashes, (b) the REAL js and css minifiers; x/net/html DOM of input vs output (text inside script/style not compared: where the elements end and everything outside is); a run in which the sub-minifier reports an error is skipped; non-trivial = output differs from input")
+	r := h.NewRNG(c.Seed ^ 0x5ab5)
+	scripts := append([]string{}, c03SubScripts...)
+	for i := c.N(400, 20000); i > 0; i-- {
+		var parts []string
+		for k := 2 + r.Intn(4); k > 0; k-- {
+			parts = append(parts, r.Pick(c03SubPieces))
+		}
+		scripts = append(scripts, strings.Join(parts, ";"))
+	}
+	var docs []string
+	for _, sc := range scripts {
+		for _, cx := range c03SubContexts {
+			docs = append(docs, strings.Replace(cx, "%s", sc, 1))
+		}
+	}
+	for _, sy := range c03SubStyles {
+		docs = append(docs, "<p>a</p><style>"+sy+"</style><p>x</p>", "<head><STYLE media=print>"+sy+"</STYLE><script>var re=/<!--<script>/;/* </script> */ f()</script></head><p>x")
+	}
+	regs := []struct {
+		name string
+		m    *minify.M
+	}{{"drop-stub", minify.New()}, {"real-js-css", minify.New()}}
+	regs[0].m.AddFuncRegexp(regexp.MustCompile(`.*`), minify.MinifierFunc(c03DropStub))
+	regs[1].m.AddFunc("application/javascript", mjs.Minify)
+	regs[1].m.AddFunc("text/javascript", mjs.Minify)
+	regs[1].m.AddFunc("module", mjs.Minify)
+	regs[1].m.AddFunc("text/css", mcss.Minify)
+	subErrs, nFail, oracleSkips := 0, 0, 0
+	for _, d := range docs {
+		in := []byte(d)
+		for ri, rg := range regs {
+			mask := 0
+			if r.Chance(40) {
+				mask = r.Intn(32) << 2 // not KeepComments/KeepSpecialComments (no comments in these documents anyway)
+			}
+			o := c03OptsOf(mask)
+			var w bytes.Buffer
+			var err error
+			crash := h.Safely(20e9, func() {
+				err = o.minifier().Minify(rg.m, &w, bytes.NewReader(parse.Copy(in)), nil)
+			})
+			if crash != "" {
+				c.R.Add(h.Finding{Stage: st.Name, Kind: "crash", What: crash, Input: h.Q(in), Hex: h.Hex(in), Config: o.String() + " " + rg.name})
+				continue
+			}
+			if err != nil {
+				subErrs++
+				continue
+			}
+			out := parse.Copy(w.Bytes())
+			if c03OracleUnsafe(in) || c03OracleUnsafe(out) {
+				oracleSkips++
+				continue
+			}
+			st.Count(fmt.Sprintf("%d %d %s", ri, mask, d), !bytes.Equal(in, out))
+			st.Tag(rg.name)
+			if res := c03oCompareSub(in, out, o.oracle()); res != "" {
+				nFail++
+				if nFail > 12 {
+					continue
+				}
+				sig := res
+				if j := strings.Index(sig, ":"); j > 0 {
+					sig = sig[:j]
+				}
+				c.R.Add(h.Finding{Stage: st.Name, Kind: "fail", What: "parsed document changed (" + sig + ") with sub-minifier " + rg.name, Input: h.Q(in), Hex: h.Hex(in), Config: o.String() + " " + rg.name, Impl: h.Q(out) + " — " + res})
+			}
+		}
+	}
+	c.R.Note("domsub: %d runs skipped (sub-minifier error), %d runs skipped (x/net/html deviates from the standard: `<` + other than `/` or letter in the script data escaped state), %d failing", subErrs, oracleSkips, nFail)
 	st.End()
 	return nil
 }
